@@ -354,6 +354,8 @@ def run(ctx: core.Ctx, prop: str):
         ctx.mismatch("e2e search", "no file was changed by any codemod in this run: the search observed nothing", {"jobs": len(jobs)})
     if prop == "C02":
         run_local_import_round(ctx, jobs, outs)
+    if prop in ("C01", "C02"):
+        run_line_filter_round(ctx, jobs, outs, prop)
     if prop == "C07":
         run_present_keyword_round(ctx, jobs, outs)
 
@@ -516,9 +518,78 @@ def run_local_import_round(ctx, jobs, outs):
                                        "new_unresolved": sorted(ua - ub), "expected": "unresolved(after) is a subset of unresolved(before)"})
 
 
+def run_line_filter_round(ctx, jobs, outs, prop):
+    """Second round for C01/C02: the same programs twice in one file, run with a `path:line` exclude (and, separately, include)
+    naming the line of ONE reported change.  Whatever a codemod does with line filters (C13's matter), what it leaves on disk
+    must still parse and bind its names: a transformer that honours the filter in one visitor method and not in another
+    (the assignment removed, the `if` left alone) shows up here and nowhere else."""
+    derived = {}
+    for job, o in zip(jobs, outs):
+        if o.get("worker_error"):
+            continue
+        for s in o["subprojects"]:
+            if s["error"] or s["tool"] is not None:
+                continue
+            changes = {c["path"]: [ch["lineNumber"] for ch in c.get("changes", [])] for c in s["pass1"]["report"].get("changeset", [])}
+            for f, before in s["before"].items():
+                lines = sorted(set(changes.get(f, [])))
+                if not f.endswith(".py") or not lines or s["after1"].get(f) in (None, before):
+                    continue
+                base = before if before.endswith("\n") else before + "\n"
+                text = base + "\n" + base
+                if not e2e.parses(text):
+                    continue
+                lst = derived.setdefault(o["codemod"], [])
+                if len(lst) < (3 if ctx.quick() else 12):
+                    lst.append((text, lines[0], lines[0] + base.count("\n") + 1))
+    jobs2 = []
+    for cm, lst in sorted(derived.items()):
+        subs = []
+        for i, (text, l1, l2) in enumerate(lst):
+            for label, inc, exc in (("line_excluded_first", (), (f"d{i}.py:{l1}",)), ("line_excluded_second", (), (f"d{i}.py:{l2}",)),
+                                    ("line_included_first", (f"d{i}.py:{l1}",), ())):
+                subs.append({"files": {f"d{i}.py": text}, "meta": {f"d{i}.py": {"variant": label}}, "tool": None, "results": None,
+                             "path_include": list(inc), "path_exclude": list(exc)})
+        jobs2.append({"codemod": cm, "subprojects": subs})
+    if not jobs2:
+        return
+    for job, o in zip(jobs2, e2e.run_jobs(ctx, jobs2)):
+        cm = o["codemod"]
+        if o.get("worker_error"):
+            ctx.mismatch("e2e worker", f"worker failed for {cm} (line-filter round)", {"codemod": cm, "error": o["worker_error"][-500:]})
+            continue
+        for s, sub in zip(o["subprojects"], job["subprojects"]):
+            if s["error"]:
+                ctx.mismatch("e2e run of " + cm, "codemod.apply raised in the line-filter round", {"codemod": cm, "error": s["error"][-800:]})
+                continue
+            for f, before in s["before"].items():
+                a1 = s["after1"].get(f)
+                if not f.endswith(".py") or a1 is None:
+                    continue
+                variant = s["meta"].get(f, {}).get("variant", "?")
+                changed = a1 != before
+                ctx.count(f"variant:{variant}")
+                ctx.case({"codemod": cm, "variant": variant, "before": before[:400], "after": a1[:400]},
+                         nontrivial_key=(cm, variant, before) if changed else None, sample=False)
+                if not changed:
+                    continue
+                replay = {"codemod": cm, "filename": f, "variant": variant, "before": before, "after_first_run": a1,
+                          "path_include": sub["path_include"], "path_exclude": sub["path_exclude"]}
+                if prop == "C01" and not e2e.parses(a1):
+                    ctx.violation(classify("C01", cm, before, a1, None), f"{cm} left a file that no longer parses (variant {variant})",
+                                  {**replay, "expected": "the rewritten file parses"})
+                if prop == "C02":
+                    ub, ua = e2e.unresolved(before), e2e.unresolved(a1)
+                    if ub is not None and ua is not None and not ua <= ub:
+                        ctx.violation(classify("C02", cm, before, a1, None),
+                                      f"{cm} introduced unresolved names {sorted(ua - ub)} (variant {variant})",
+                                      {**replay, "new_unresolved": sorted(ua - ub), "expected": "unresolved(after) is a subset of unresolved(before)"})
+
+
 def replay(ctx: core.Ctx, body, prop):
     job = {"codemod": body["codemod"], "subprojects": [{"files": {body["filename"]: body["before"]}, "meta": {}, "tool": body.get("tool"),
-                                                        "results": body.get("results")}]}
+                                                        "results": body.get("results"), "path_include": body.get("path_include"),
+                                                        "path_exclude": body.get("path_exclude")}]}
     o = e2e.run_jobs(ctx, [job])[0]
     s = o["subprojects"][0]
     print("error:", s.get("error"))
